@@ -63,6 +63,14 @@ CLAIMED = {
    'Decides: for each of the 30 Parser impls the sub-parsers evaluated are exactly the sub-parsers described and names matched are names described (listed exceptions: hide, construct!); Skip only from hide/pure/fail/name-less; '
    'every walker visits all children of And/Or and the child of each wrapper (listed exceptions by design); the de-duplication key covers every field the help line shows; HelpItem::from copies fields one to one; '
    'first names shown are from the searched vectors; descr/usage/header/items/footer order. Does NOT decide grouping/dedup outcomes for particular shapes.', 'DESIGN.md section 5 C12'),
+ 'C13': C('width non-interference by edge-restricted reachability (blocks that exist only because of a max_width comparison), exactly-once push by must-pass-through, constant census of all writes to the output, provenance of the width argument and of splitter chunks',
+   'Decides: in the width-dependent region the output is only extended by newlines and truncated to its own trim_end(), and only a single-space chunk may be skipped; every Raw chunk is pushed exactly once; all other writes are '
+   'whitespace constants or the TermRef backtick; `full` only starts skipping after the first paragraph; width comes from MAX_WIDTH / the formatter / the print_message parameter; the splitter only yields sub-slices of its input. '
+   'Does NOT decide the numeric line-length bound (a changed wrap threshold is missed by design).', 'DESIGN.md section 5 C13'),
+ 'C14': C('must-pass-through on run_subparser, no-late-None reachability in check_complete, stash PAIR rules (swap_comps_with brackets), hint-emission must-pass-through on failing exits, hand-over rules for wrappers, dispatch table',
+   'Decides (autocomplete builds): parsed value / help / error are reachable only after check_complete() returned None; check_complete gives up only when completion is off or the last item is not UTF-8; hide drops its stash while '
+   'group_help/complete/complete_shell hand it back; every failing exit of the four primitives emits a hint (listed exception: NonStrictPos), hints carry self.depth() and are recorded only in completion mode; fallback/fallback_with move hints '
+   'back on every failure; revision dispatch. Does NOT decide the candidate set for a prefix.', 'DESIGN.md section 5 C14'),
  'C15': C('typed taint + template/CFG rules over type-checked MIR (custom rustc_private driver)',
    'Decides structural necessary conditions on every autocomplete configuration: every fmt argument render_zsh/render_bash '
    'write has the quoting newtype Shell as its resolved Display type (constants, integers and developer-supplied Raw strings '
